@@ -258,6 +258,16 @@ start_over:
 			last_probe = 1;
 			continue;
 		}
+		if (probe == HDR_PROBE_LEN && buf[0] == '\0') {
+			/* The blocking of the output pads the last block
+			 * with zeros: that is the end of the archive. */
+			size_t k = 0;
+
+			while (k < HDR_PROBE_LEN && buf[k] == '\0')
+				k++;
+			if (k == HDR_PROBE_LEN)
+				return (ARCHIVE_EOF);
+		}
 		/* looks good so far, try and find the end of the
 		 * header now */
 		eoh = _warc_find_eoh(buf, nrd);
